@@ -1,11 +1,15 @@
 package props
 
 import (
+	"encoding/json"
+	"fmt"
 	"math/rand"
 	"strconv"
+	"strings"
 
 	"github.com/orda-io/orda/client/pkg/model"
 	"github.com/orda-io/orda/client/pkg/orda"
+	"github.com/wI2L/jsondiff"
 	"vh/core"
 	"vh/crdt"
 )
@@ -132,7 +136,7 @@ func init() {
 	core.Register(&core.Prop{
 		ID:    "C19",
 		Level: "exploration",
-		Rule: "SDK half: seeded chains of 1-5 (current, target) JSON objects without nulls (depth <= 4, arrays of primitives / objects / arrays, keys incl. '/', '~', '~0', '~1', empty, numeric and '-' keys, type changes at a path, array growth / shrink / permutation); after each PatchByJSON: GetValue() JSON-equals the target, the pending list grew by one unit (one operation or one TRANSACTION announcing all of them), a second replica with its own concurrent history settled first receives the operations and reads the target wherever the patch wrote, and a twin fed with the same operations equals the patched replica; unpatchable requests (invalid JSON, non-object JSON) return an error and change nothing; REST half: see the E-svc cases of this check; " +
+		Rule: "SDK half: seeded chains of 1-5 (current, target) JSON objects without nulls (depth <= 4, arrays of primitives / objects / arrays, keys incl. '/', '~', '~0', '~1', empty, numeric and '-' keys, type changes at a path, array growth / shrink / permutation); after each PatchByJSON: GetValue() JSON-equals the target, the pending list grew by one unit (one operation or one TRANSACTION announcing all of them), a second replica with its own concurrent history settled first receives the operations and reads the target wherever the patch wrote, and a twin fed with the same operations equals the patched replica; every third patch is applied as explicit JSON-patch steps through Document.Patch; unpatchable requests (invalid JSON; step lists that remove a missing key, use an unsupported step, address an array with a non-number - also after valid steps) return an error and change nothing; REST half: see the E-svc cases of this check; " +
 			"non-trivial = the patch needed >= 2 operations or touched a key that needs JSON-pointer escaping or changed a type; distinct = hash of the script",
 		Assumptions: []string{
 			"targets contain no null (the statement excludes them)",
@@ -191,6 +195,21 @@ func c19SDK(c *core.Case) *core.Result {
 		var perr error
 		var nPatches int
 		if pm := safely(func() {
+			if (c.Index+i)%3 == 1 {
+				// the same patch through the explicit API: the JSON-patch steps computed by the
+				// harness, applied with Document.Patch
+				ps, e := jsondiff.CompareJSON([]byte(crdt.JS(cur)), []byte(tjson))
+				if e != nil {
+					perr = e
+					return
+				}
+				nPatches = len(ps)
+				c.Count("patches_through_explicit_steps", 1)
+				if e := doc.Patch(ps...); e != nil {
+					perr = e
+				}
+				return
+			}
 			ps, e := doc.PatchByJSON(tjson)
 			nPatches = len(ps)
 			if e != nil {
@@ -256,6 +275,45 @@ func c19SDK(c *core.Case) *core.Result {
 			return c.Violation("sdk:unpatchable-changed-state", "a refused patch %q left a trace: %s", bad, d)
 		}
 		c.Count("unpatchable_requests", 1)
+	}
+	// unpatchable step lists through Document.Patch: an error, and nothing changes - also when
+	// valid steps precede the one that cannot be applied (the patch is one atomic unit)
+	badPatches := []string{
+		`[{"op":"remove","path":"/__no_such_key__"}]`,
+		`[{"op":"add","path":"/__added__","value":"x"},{"op":"remove","path":"/__no_such_key__"}]`,
+		`[{"op":"move","from":"/__a__","path":"/__b__"}]`,
+		`[{"op":"add","path":"/__added__","value":{"n":[1,2]}},{"op":"copy","from":"/__added__","path":"/__c__"}]`,
+	}
+	if m, ok := cur.(map[string]interface{}); ok {
+		for _, k := range crdt.SortedKeys(m) {
+			if _, isArr := m[k].([]interface{}); isArr && !strings.ContainsAny(k, "/~") && k != "" {
+				badPatches = append(badPatches, fmt.Sprintf(`[{"op":"add","path":"/__added__","value":1},{"op":"add","path":"/%s/not-a-position","value":1}]`, k))
+				break
+			}
+		}
+	}
+	for _, bad := range badPatches {
+		var ops jsondiff.Patch
+		if err := json.Unmarshal([]byte(bad), &ops); err != nil {
+			continue
+		}
+		b := observeAll(P, g.Keys)
+		var perr error
+		c.Step("unpatchable steps %s", bad)
+		if pm := safely(func() {
+			if e := doc.Patch(ops...); e != nil {
+				perr = e
+			}
+		}); pm != "" {
+			return c.Violation("sdk:unpatchable-panic", "Patch(%s) panicked: %s", bad, pm)
+		}
+		if perr == nil {
+			return c.Violation("sdk:unpatchable-accepted", "Patch(%s) returned no error (document %s)", bad, clip(crdt.Canon(doc.GetValue()), 300))
+		}
+		if d := diffObs(b, observeAll(P, g.Keys)); d != "" {
+			return c.Violation("sdk:unpatchable-changed-state", "the refused patch %s left a trace: %s", bad, d)
+		}
+		c.Count("unpatchable_step_lists", 1)
 	}
 	if nontrivial {
 		c.NonTrivial()
